@@ -674,3 +674,127 @@ def gen_rangeindex(repo):
             f"def stopExpr (start step : Int) (size : Nat) : Int := {tr(kw['stop'])}\n"
             f"def slicedToSize : Bool := {'true' if sliced else 'false'}\n"
             "end PqV.Gen.RangeIndex\n")
+
+
+def _gen_writelayout(repo):
+    """writer.encode_dict (width byte, run header, zero padding) and the trailer of a v1 page in write_column, as Lean functions over Int"""
+    src = open(os.path.join(repo, "fastparquet", "writer.py")).read()
+    tree = ast.parse(src)
+    fns = {n.name: n for n in ast.walk(tree) if isinstance(n, ast.FunctionDef)}
+    ed = fns["encode_dict"]
+    env = {}
+
+    def tr(node):
+        s = ast.unparse(node)
+        if s == "len(data)":
+            return "(n : Int)"
+        if s == "data.values.dtype.itemsize":
+            return "(item : Int)"
+        if isinstance(node, ast.Name) and node.id in env:
+            return env[node.id]
+        if isinstance(node, ast.Constant) and isinstance(node.value, int) and not isinstance(node.value, bool):
+            return f"({node.value} : Int)"
+        if isinstance(node, ast.UnaryOp) and isinstance(node.op, ast.USub):
+            return f"(-{tr(node.operand)})"
+        if isinstance(node, ast.BinOp):
+            # (E << 1) | 1  ==  E * 2 + 1
+            if isinstance(node.op, ast.BitOr) and isinstance(node.right, ast.Constant) and node.right.value == 1 and \
+               isinstance(node.left, ast.BinOp) and isinstance(node.left.op, ast.LShift) and isinstance(node.left.right, ast.Constant) and node.left.right.value >= 1:
+                return f"(({tr(node.left.left)} * {2 ** node.left.right.value}) + 1)"
+            if isinstance(node.op, ast.LShift) and isinstance(node.right, ast.Constant):
+                return f"({tr(node.left)} * {2 ** node.right.value})"
+            op = {ast.Add: "+", ast.Sub: "-", ast.Mult: "*", ast.FloorDiv: "/", ast.Mod: "%"}.get(type(node.op))
+            if op:
+                return f"({tr(node.left)} {op} {tr(node.right)})"
+        raise ValueError("unsupported expression in encode_dict: " + s[:80])
+
+    header = None
+    wbyte = None
+    ret = None
+    for st in ed.body:
+        if isinstance(st, ast.Assign) and len(st.targets) == 1 and isinstance(st.targets[0], ast.Name) and st.targets[0].id in ("width", "bit_packed_count", "pad"):
+            env[st.targets[0].id] = tr(st.value)
+        elif isinstance(st, ast.Expr) and isinstance(st.value, ast.Call):
+            f = ast.unparse(st.value.func)
+            if f.endswith("encode_unsigned_varint"):
+                header = tr(st.value.args[0])
+            elif f.endswith("write_byte"):
+                wbyte = tr(st.value.args[0])
+        elif isinstance(st, ast.Return):
+            ret = ast.unparse(st.value)
+    for k in ("width", "bit_packed_count", "pad"):
+        if k not in env:
+            raise ValueError(f"encode_dict no longer assigns {k}")
+    if header is None or wbyte is None:
+        raise ValueError("encode_dict: run header / width byte call not found")
+    if ret != "bytes(o.so_far()) + data.values.tobytes() + b'\\x00' * pad":
+        raise ValueError("encode_dict returns " + str(ret)[:100])
+    # v1 page: b"".join([repetition_data, definition_data, encode[encoding](data, selement), <k> * b'\x00'])
+    wc = fns["write_column"]
+    trailer = None
+    for n in ast.walk(wc):
+        if isinstance(n, ast.Call) and ast.unparse(n.func) == "b''.join" and n.args and isinstance(n.args[0], ast.List):
+            elts = [ast.unparse(e) for e in n.args[0].elts]
+            if elts[:3] == ["repetition_data", "definition_data", "encode[encoding](data, selement)"] and len(elts) == 4:
+                last = n.args[0].elts[3]
+                if isinstance(last, ast.BinOp) and isinstance(last.op, ast.Mult) and ast.unparse(last.right) == "b'\\x00'" and isinstance(last.left, ast.Constant):
+                    trailer = last.left.value
+    if trailer is None:
+        raise ValueError("write_column: the v1 page body is no longer b''.join([repetition_data, definition_data, values, k * b'\\x00'])")
+    return ("-- REGENERATED from fastparquet/writer.py (encode_dict, write_column) - do not edit\n"
+            "namespace PqV.Gen.WriteLayout\n"
+            f"def dictWidthByte (item : Nat) : Int := {wbyte.replace('width', env['width']) if wbyte == 'width' else wbyte}\n"
+            f"def dictHeader (n item : Nat) : Int := {header}\n"
+            f"def dictPad (n item : Nat) : Int := {env['pad']}\n"
+            f"def v1Trailer : Nat := {trailer}\n"
+            "end PqV.Gen.WriteLayout\n")
+
+
+@register("WriteLayout")
+def gen_writelayout(repo):
+    """fails soft: the driver imports this module, so an unrecognised source yields the layout the model was written for with
+    `recognised := false` - which breaks `write_layout_now` (C02, C01) only"""
+    try:
+        return _gen_writelayout(repo).replace("end PqV.Gen.WriteLayout", "def recognised : Bool := true\ndef note : String := \"\"\nend PqV.Gen.WriteLayout")
+    except Exception as e:  # noqa
+        msg = str(e).replace('"', "'").replace("\\", "/")[:200]
+        return ("-- REGENERATED from fastparquet/writer.py - the source was NOT recognised: " + msg + "\n"
+                "namespace PqV.Gen.WriteLayout\n"
+                "def dictWidthByte (item : Nat) : Int := (item : Int) * 8\n"
+                "def dictHeader (n item : Nat) : Int := ((n : Int) + 7) / 8 * 2 + 1\n"
+                "def dictPad (n item : Nat) : Int := (((n : Int) + 7) / 8 * 8 - n) * item\n"
+                "def v1Trailer : Nat := 8\n"
+                "def recognised : Bool := false\n"
+                f"def note : String := \"{msg}\"\n"
+                "end PqV.Gen.WriteLayout\n")
+
+
+@register("ReadGuards")
+def gen_readguards(repo):
+    """core.read_col / read_data_page: when the reader steps over the level block, and when it takes the byte-exact code path"""
+    src = open(os.path.join(repo, "fastparquet", "core.py")).read()
+    tree = ast.parse(src)
+    fns = {n.name: n for n in ast.walk(tree) if isinstance(n, ast.FunctionDef)}
+    rc = fns["read_col"]
+    guard = None
+    for n in ast.walk(rc):
+        if isinstance(n, ast.If) and any(isinstance(b, ast.Assign) and getattr(b.targets[0], "id", None) == "skip_nulls"
+                                         and isinstance(b.value, ast.Constant) and b.value.value is True for b in n.body):
+            guard = n.test
+            other = [b for b in n.orelse if isinstance(b, ast.Assign) and getattr(b.targets[0], "id", None) == "skip_nulls"]
+            if not (other and isinstance(other[0].value, ast.Constant) and other[0].value.value is False):
+                raise ValueError("skip_nulls is not set to False in the else branch")
+    if guard is None:
+        raise ValueError("no `skip_nulls = True` under an if in read_col")
+    conj = [ast.unparse(v) for v in guard.values] if isinstance(guard, ast.BoolOp) and isinstance(guard.op, ast.And) else [ast.unparse(guard)]
+    rdp = fns["read_data_page"]
+    # where skip_nulls is used: `if skip_nulls and not helper.is_required(...)`
+    use = [ast.unparse(n.test) for n in ast.walk(rdp) if isinstance(n, ast.If) and "skip_nulls" in ast.unparse(n.test)]
+    fast = [ast.unparse(n.test) for n in ast.walk(rdp) if isinstance(n, ast.If) and "selfmade" in ast.unparse(n.test) and "bit_width" in ast.unparse(n.test)]
+    q = lambda l: "[" + ", ".join('"' + x.replace('\\', '\\\\').replace('"', '\\"') + '"' for x in l) + "]"
+    return ("-- REGENERATED from fastparquet/core.py (read_col / read_data_page) - do not edit\n"
+            "namespace PqV.Gen.ReadGuards\n"
+            f"def skipGuard : List String := {q(conj)}\n"
+            f"def skipUse : List String := {q(use)}\n"
+            f"def codeFastPath : List String := {q(fast)}\n"
+            "end PqV.Gen.ReadGuards\n")
